@@ -73,6 +73,14 @@ fn d_nat_add_debug_assert() {
     assert_eq!(r.exp(), 5);
 }
 
+#[test]
+fn d_nat_cmp_zero_zero() {
+    // debug builds: panics with "attempt to shift left with overflow" (bigint.rs:452)
+    let c = Natural::ZERO.partial_cmp(&Natural::from(0u32));
+    println!("0 <=> 0 = {:?}", c);
+    assert_eq!(c, Some(std::cmp::Ordering::Equal));
+}
+
 // ---- memory-unsafe ones (Clone::clone_from)
 // memory-unsafe reproductions: run one at a time
 #[test]
